@@ -1,0 +1,18 @@
+//go:build verif
+
+package main
+
+// Contracts for the deductive verifier in /verif (build tag "verif" only; this
+// file contains no declarations and is not part of any normal build).
+//
+//@ mode int
+//@ implicit [C16]
+//@ abstract bytecode.Type
+//
+// C16: all three run modes execute a statement the same way - in particular each resolves names
+// (STRewrite) before compiling. File and REPL mode go through node.Loop/processInput (checked in
+// types/node); the -eval branch of main calls the compiler directly and is checked here against the
+// compiler's precondition.
+//@ func main [C16]
+//@   checks
+//@   modifies *
